@@ -51,6 +51,21 @@ CLAIMED = {
         "technique": "explicit TLA+ spec (ConcSave.tla) model-checked with TLC (safety + liveness); TLC-enumerated schedules "
                      "replayed on real threads via source hooks; traces validated by TLC",
     },
+    "C14": {
+        "domains": ["agile"],
+        "text": "TLC checks on a symbolic (free-algebra) model that the standard's decryptor program inverts what the library "
+                "writes for all boundary sizes (0..8193): a different password fails the verifier, any change to the stream "
+                "including its length prefix breaks the HMAC, the segment layout is as specified, random values never repeat. "
+                "The same TLC-printed program is then evaluated on real compound files written via write_with_password, "
+                "write_with_password_light and set_password (empty/ASCII/non-BMP/255-character passwords, sizes around "
+                "multiples of 16 and 4096); TLC validates each save for verifier match, HMAC, declared length, byte-equal "
+                "package, rejection of near-miss passwords, and freshness of the five random values across the trace.",
+        "note": TRUST + ", hashlib/hmac, OpenSSL AES (self-checked against NIST SP 800-38A and the repository's pinned "
+                        "vectors), the pydec CFB and EncryptionInfo parsers. Free-algebra assumption for H/Enc/Hmac; freshness is "
+                        "distinctness, not unpredictability. The \\x06DataSpaces storage is not part of the statement.",
+        "technique": "symbolic (Dolev-Yao) TLA+ model checked with TLC + TLC trace validation of files decrypted by a "
+                     "spec-driven independent decryptor",
+    },
 }
 
 NOT_CLAIMED = {}
